@@ -280,8 +280,14 @@ class Monitor:
             elif a2:
                 rel = ('supertype', 'new-above-old')
             else:
-                r1 = lang_assignable(o2, new, lang, T, old_prim, new_prim)
-                r2 = lang_assignable(new, o2, lang, T, new_prim, old_prim)
+                # a value whose type is a variable converts the way its bound does
+                ob = o2
+                hops = 0
+                while ob is not None and ob[0] == 'v' and hops < 6:
+                    ob, hops = ob[3], hops + 1
+                ob = ob if ob is not None else o2
+                r1 = lang_assignable(ob, new, lang, T, old_prim, new_prim)
+                r2 = lang_assignable(new, ob, lang, T, new_prim, old_prim) if ob is o2 else None
                 if r1 or r2:
                     rel = ('assignable', r1 or r2)
                 elif a1 is None or a2 is None:
